@@ -531,12 +531,20 @@ def outcome (c : Cfg Req Resp) : Outcome Req Resp :=
       | [] => c.m.result.getD (.returned none)
       | _ :: _ => .hang }
 
+/-- the start of a call: nothing sent, the client program and the server program at their first operation -/
+def initV {α : Type} (p : ClientProg Req α) (v : VProg Req Resp) : Cfg Req Resp :=
+  { cl := { card := p.card }, up := {}, down := {}, s := [], m := { ops := p.ops }, v := { prog := v } }
+
 def init {α : Type} (p : ClientProg Req α) (a : Adapter) (h : Handler Req Resp) : Cfg Req Resp :=
-  { cl := { card := p.card }, up := {}, down := {}, s := [], m := { ops := p.ops }, v := { prog := serverProg a h } }
+  initV p (serverProg a h)
+
+/-- a client program against a server program, under the canonical schedule -/
+def callProg {α : Type} (p : ClientProg Req α) (v : VProg Req Resp) : Outcome Req Resp :=
+  outcome (canon true (initV p v))
 
 /-- a client program against an adapter + handler, under the canonical schedule -/
 def callWith {α : Type} (p : ClientProg Req α) (a : Adapter) (h : Handler Req Resp) : Outcome Req Resp :=
-  outcome (canon true (init p a h))
+  callProg p (serverProg a h)
 
 /-- the call of an RPC of cardinality `card` through the generated stub and the generated base -/
 def call (card : Card) (h : Handler Req Resp) (reqs : List Req) : Outcome Req Resp :=
